@@ -26,6 +26,8 @@ type childReply struct {
 
 // childMain serves cases from stdin: one JSON case per line in, one JSON reply per line out.
 func childMain() {
+	// the family "runend" sends this process the proxy's shutdown signal (SIGUSR1): never let the default action run
+	holdSignals()
 	in := bufio.NewReaderSize(os.Stdin, 1<<20)
 	out := bufio.NewWriter(os.Stdout)
 	for {
